@@ -14,6 +14,7 @@ func init() {
 		func(c *Ctx) {
 			c.run("C07-R1", "WHO-CALLS: every file-system mutating call reachable from recvFiles / the error reporters belongs to an allowed kind", c07R1)
 			c.run("C07-R2", "GUARD-DOM: top-level name joined onto the destination is fresh unless on the Overwrite edge", c07R2)
+			c.run("C07-R2b", "WHO-WRITES/MUST-PASS: map keyed by the peer's path id; a failed fresh-name search fails the transfer", c07MapKey)
 			c.run("C07-R3", "GUARD-DOM: getNewName returns only names whose Stat(Join(path,name)) is on the IsNotExist true edge", c07R3)
 			c.run("C07-R4", "GUARD-DOM: MkdirAll only on the not-exist edge; existing non-directory is an error", c07R4)
 			c.run("C07-R5", "GUARD-DOM: reported name = name joined into the created path", c07R5)
@@ -339,6 +340,49 @@ func paramIndex(f *ssa.Function, p *ssa.Parameter) int {
 		}
 	}
 	return -1
+}
+
+// c07MapKey: lookups and updates of the per-path-id map are keyed by the PathID of the decoded entry.
+func c07MapKey(c *Ctx) {
+	n := 0
+	for _, f := range c.AllFns {
+		eachInstr(f, func(in ssa.Instruction) {
+			var m, k ssa.Value
+			switch x := in.(type) {
+			case *ssa.Lookup:
+				m, k = x.X, x.Index
+			case *ssa.MapUpdate:
+				m, k = x.Map, x.Key
+			default:
+				return
+			}
+			if _, fld, ok := fieldOf(m); !ok || fld != "fileNameMap" {
+				return
+			}
+			n++
+			c.check(isFieldLoad("PathID")(k), "fileNameMap/key=PathID@"+c.fnName(f), c.ipos(in), "the fresh-name map is keyed by the peer's path id", "the fresh-name map is keyed by something other than the path id: two source paths with the same base name share one local name and overwrite each other")
+		})
+	}
+	if n < 2 {
+		c.undecided("fileNameMap/uses", "expected a lookup and an update of the fresh-name map")
+	}
+	// a failing fresh-name search fails the transfer
+	for _, f := range c.AllFns {
+		for _, ci := range callsIn(f, idIs("trzsz.getNewName")) {
+			call, ok := ci.(*ssa.Call)
+			if !ok {
+				continue
+			}
+			u := classifyErrUse(errorValueOf(call))
+			good := !u.dropped && (len(u.tests) > 0 || u.returned)
+			for _, t := range u.tests {
+				if okE, _ := failEdge(c, t.Block(), nonNilEdge(t)); !okE {
+					good = false
+				}
+			}
+			c.check(good, "getNewName.err@"+c.fnName(f), c.ipos(ci), "no fresh name -> the transfer fails", "the error of the fresh-name search is swallowed: when name and name.0..999 all exist the existing file is overwritten")
+		}
+	}
 }
 
 func c07R3(c *Ctx) {
